@@ -430,6 +430,18 @@ public:
 
    virtual uint32 TemplatedTypeCode() const {return B_BOOL_TYPE;}
 
+   virtual status_t TemplatedUnflatten(DataUnflattener & unflat)
+   {
+      // Read the bools as bytes, so that a byte-value other than 0 or 1 can't be loaded into a bool-variable directly
+      const uint32 numItems = unflat.GetNumBytesAvailable();
+      this->_data.Clear();
+      MRETURN_ON_ERROR(this->_data.EnsureSize(numItems, true));
+
+      const uint8 * b = unflat.GetCurrentReadPointer();
+      for (uint32 i=0; i<numItems; i++) this->_data[i] = (b[i] != 0);
+      return unflat.SeekRelative(numItems);
+   }
+
    virtual const char * GetFormatString() const {return "%i";}
 
    virtual AbstractDataArrayRef Clone() const;
